@@ -1,6 +1,6 @@
 (* Proofs/ParseS.v — soundness of the parser model: what it accepts is well-formed and is parsed again from
    its canonical sentence; witnesses of the two known findings. *)
-From Asimap Require Import Base.Res Base.Bytes Model.Lex Spec.Grammar Model.ParseM Proofs.LexP Proofs.ParseP Proofs.ParseT.
+From Asimap Require Import Base.Res Base.Bytes Model.Lex Spec.Grammar Model.ParseM Proofs.LexP Proofs.ParseP Proofs.ParseT Proofs.ParseW.
 From Coq Require Import Lia ZArith List Bool.
 Import ListNotations.
 Open Scope Z_scope.
@@ -23,3 +23,31 @@ Qed.
 
 Lemma p_mailbox_inbox ch site r : stops r = true -> p_mailbox (r_mailbox ch site inbox ++ r) = ROk inbox r.
 Proof. intros Hr. apply p_mailbox_app; [reflexivity|exact Hr]. Qed.
+
+(* what the parser accepts is well-formed, and its canonical sentence is parsed to the same command *)
+Theorem parse_sound s a :
+  parse s = POk a -> Z.of_nat (List.length s) < 10 ^ 4300 ->
+  wf_canon a = true /\ parse (render a canon) = POk a.
+Proof.
+  intros Hp Hs. unfold parse in Hp. destruct (parse_core s) as [a0 r| |k] eqn:E; [|discriminate|destruct k; discriminate].
+  inversion Hp; subst a0. pose proof (parse_core_wf s a r Hs E) as Hw. split; [exact Hw|].
+  unfold parse. rewrite (parse_core_render_canon a Hw). reflexivity.
+Qed.
+
+Theorem parse_strict_sound s a :
+  parse_strict s = POk a -> Z.of_nat (List.length s) < 10 ^ 4300 ->
+  at_end (parse_rest s) = true /\ wf_canon a = true /\ parse_strict (render a canon) = POk a.
+Proof.
+  intros Hp Hs. unfold parse_strict, parse_rest in *. destruct (parse_core s) as [a0 r| |k] eqn:E; [|discriminate|destruct k; discriminate].
+  destruct (at_end r) eqn:Ee; [|discriminate]. inversion Hp; subst a0.
+  pose proof (parse_core_wf s a r Hs E) as Hw. repeat split; [exact Hw|].
+  rewrite (parse_core_render_canon a Hw). reflexivity.
+Qed.
+
+Theorem parse_render_canon a : wf_canon a = true -> parse (render a canon) = POk a.
+Proof. intros H. unfold parse. rewrite (parse_core_render_canon a H). reflexivity. Qed.
+
+Theorem wf_wf_canon a : wf a = true -> wf_canon a = true.
+Proof.
+  unfold wf, wf_canon, wfb. intros H. apply andb_true_iff in H. destruct H as [H1 H2]. rewrite H1. apply cmd_okb_alt. exact H2.
+Qed.
